@@ -49,6 +49,8 @@ def odd_name(rng, label, base, p=0.08):
 
 def location(cfg, root):
     kind, name, opts = cfg['kind'], cfg['name'], cfg['opts']
+    if cfg.get('rel'):
+        root = ''        # a name relative to the current working directory
     if kind == 'file':
         if not opts.get('serialized', True):
             return os.path.join(root, name + '.py')
